@@ -707,9 +707,47 @@ def gen_tables():
     need(len(ctor) == 1, "TCPServer.run: expected one socketserver.*Server construction")
     kls = getattr(socketserver, ctor[0].func.attr)
     threaded = issubclass(kls, (socketserver.ThreadingMixIn, socketserver.ForkingMixIn))
-    hsrc = inspect.getsource(SRV._TCPServerRequestHandler.handle) + \
-        inspect.getsource(SRV._RequestHandler)
-    spawns = bool(re.search(r"Thread\(|Process\(|fork\(|submit\(|create_task\(", hsrc))
+    # structure facts: the serving path creates no thread / process / task anywhere except the one helper
+    # thread of _TCPServerRequestHandler.shutdown, and that thread does nothing but self.server.shutdown()
+    SPAWNERS = {"Thread", "Process", "fork", "submit", "create_task", "Timer", "ThreadPoolExecutor",
+                "ProcessPoolExecutor", "start_new_thread", "run_in_executor", "ensure_future"}
+
+    def spawn_sites(modname):
+        import importlib
+        m_ = importlib.import_module(modname)
+        tree = ast.parse(open(inspect.getsourcefile(m_)).read())
+        sites = []
+
+        def walk(node, where):
+            for ch in ast.iter_child_nodes(node):
+                w = where
+                if isinstance(ch, (ast.FunctionDef, ast.ClassDef, ast.AsyncFunctionDef)):
+                    w = where + [ch.name]
+                if isinstance(ch, ast.Call):
+                    f = ch.func
+                    nm = f.attr if isinstance(f, ast.Attribute) else f.id if isinstance(f, ast.Name) else None
+                    if nm in SPAWNERS:
+                        sites.append((".".join(w), nm))
+                walk(ch, w)
+        walk(tree, [])
+        return sites, tree
+    srv_sites, srv_tree = spawn_sites("comm.server")
+    other_sites = []
+    for mn in ("comm.protocol", "comm.protocol_v1", "ledger.protocol", "ledger.protocol_v1", "mgr.runner",
+               "ledger.hsm2dongle", "ledger.hsm2dongle_tcp", "sgx.hsm2dongle"):
+        other_sites += [(mn,) + x for x in spawn_sites(mn)[0]]
+    only_shutdown_thread = srv_sites in ([("_TCPServerRequestHandler.shutdown", "Thread")],
+                                         [("_TCPServerRequestHandler.shutdown.tgt", "Thread")])
+    ds = func_ast(SRV._TCPServerRequestHandler, "_do_shutdown")
+    ds_body = [st for st in ds.body if not (isinstance(st, ast.Expr) and isinstance(st.value, ast.Constant))]
+    shutdown_only = (len(ds_body) == 1 and isinstance(ds_body[0], ast.Expr)
+                     and ast.unparse(ds_body[0].value) == "self.server.shutdown()")
+    overrides = [n.name for n in ast.walk(srv_tree) if isinstance(n, ast.FunctionDef)
+                 and n.name in ("process_request", "process_request_thread", "finish_request", "get_request")]
+    spawns = not (only_shutdown_thread and shutdown_only and not other_sites and not overrides)
+    e.comment("thread/process creation sites: comm.server %r; other serving modules %r; _do_shutdown is "
+              "server.shutdown() only: %r; socketserver hooks overridden: %r"
+              % (srv_sites, other_sites, shutdown_only, overrides))
     e.defn("SERVER_IS_SEQUENTIAL", "bool", "false" if (threaded or spawns) else "true")
     e.defn("SERVER_CLASS", "str", coq_str(ctor[0].func.attr))
 
